@@ -70,7 +70,7 @@ def canon_dump(s):
 
 SYMS = ["x", "y", "z"]
 INTS = ["(i 0)", "(i 1)", "(i -1)", "(i 2)", "(i -2)", "(i 3)", "(i 4)", "(i -4)", "(i 8)", "(i -8)", "(i 9)", "(i 12)",
-        "(i 27)", "(i -27)", "(i 6)", "(i 18)", "(i 72)", "(i 1000000007)", "(i 18446744073709551616)"]
+        "(i 27)", "(i -27)", "(i 6)", "(i 18)", "(i 72)", "(i 10007)", "(i 18446744073709551616)"]
 RATS = ["(q 1 2)", "(q -1 2)", "(q 1 3)", "(q -1 3)", "(q 2 3)", "(q 3 2)", "(q -3 2)", "(q 4 9)", "(q 8 27)", "(q -8 27)",
         "(q 9 4)", "(q 5 2)", "(q 1 4)", "(q 3 4)", "(q 12 5)", "(q 2 9)", "(q 7 3)", "(q -7 3)", "(q 1 6)", "(q 5 6)"]
 CPLX = ["I", "(c 1 1 1 1)", "(c 0 1 -1 1)", "(c 1 2 3 4)", "(c 0 1 2 1)", "(c 0 1 1 2)", "(c 3 1 -4 1)"]
@@ -340,6 +340,15 @@ def has_opaque(c):
     return any("Opaque" in a for a in c.args) or (c.res is not None and "Opaque" in c.res)
 
 
+BIG = 2500
+
+
+def too_big(c):
+    """results with thousands of digits (or calls that did not finish) are not replayed on the extracted model,
+    whose integers are binary lists: counted as skipped"""
+    return len(c.key) > BIG or (c.res is not None and len(c.res) > BIG) or (c.res or "").startswith("HANG")
+
+
 def is_error(res):
     return res is None or res.startswith(("EXN", "CRASH", "HANG", "UNCAUGHT", "NOOUTPUT"))
 
@@ -349,7 +358,7 @@ def model_calls(ctx, model, calls):
     keys = []
     seen = set()
     for c in calls:
-        if c.op in ARITH_OPS and c.key not in seen and not has_opaque(c):
+        if c.op in ARITH_OPS and c.key not in seen and not has_opaque(c) and not too_big(c):
             seen.add(c.key)
             keys.append(c.key)
     outs = ctx.run_lines(model, keys, timeout=1800, shards=16)
